@@ -1,4 +1,6 @@
-import AsherahVerif.Driver.Loop
-/- model driver executable of engine `partition` (stub until the engine is built) -/
+import AsherahVerif.Driver.Partition
+open AsherahVerif.Driver
+/- model driver executable of engine `partition` (C06): reads hxpartition's trace on stdin -/
 def main (_args : List String) : IO UInt32 := do
-  IO.eprintln "engine partition: not built yet"; return 2
+  runEngine PartitionEngine.engine
+  return 0
